@@ -15,6 +15,7 @@ R1.7  writer typestate: indent()/dedent() are balanced on every path of every em
       the signature generator leaves +1 that the method generator closes)
 R1.8  de-collision precedes emission and the set of schemas that get files is the set that is exported/imported: a
       file filter after naming must be unsatisfiable or be applied to the registry the exports are rendered from
+R1.11 RenderContext's completion of "incomplete" internal module paths never applies to a module of the core package
 R1.10 the tag client modules client.py imports are the ones the endpoints emitter writes (grouping agreement, rules of C07)
 R1.9  duplicate argument names cannot be emitted (operation-level override + de-dup)                     [= R4.4 / R20.2]
 """
@@ -66,6 +67,7 @@ def run(repo: Repo, rep: Report, tier: str) -> None:
             n5 += c05._import_obligations(fn, _Relabel(rep, "R1.1"))
     rep.count("R1.1:handler_emit_sites", n5)
 
+    rule_completion_spares_core(repo, rep, "R1.11")
     # ---------------------------------------------------------------- R1.3
     # every alias class an endpoints module imports is defined by the alias emitters (rule instances of C06/R6.4, with its fallbacks)
     from rules._reuse import reuse as _reuse13
@@ -587,3 +589,56 @@ def _filter_satisfiable(flt: Function) -> Tuple[bool, str]:
             return False, f"`<schema>.name.lower() in {members}` and `<schema>.name.endswith({suffix!r})` contradict each other (no listed name ends with {suffix!r})"
         return True, f"a name in {members} ends with {suffix!r}"
     return True, "the name constraints no longer contradict each other (" + "; ".join(norm(c)[:50].replace(P + ".", "<schema>.") for c in conj if pname in norm(c)) + ")"
+
+
+# ------------------------------------------------------------------------------------------------ R1.11 path completion spares the core
+def rule_completion_spares_core(repo: Repo, rep, rule: str = "R1.11") -> None:
+    """RenderContext "completes" a module path that starts with the non-root segments of the output package by prefixing the root
+    package (`m = f"{root}.{m}"`).  A module of the core package must never be completed: with output `acme.shared` and the
+    top-level core `shared.core`, `shared.core.x` would become `acme.shared.core.x` and be imported relatively from a place where
+    no core exists.  Every such self-prefixing assignment must lie under a condition that excludes the core namespace."""
+    from sa.cfg import CFG, guards
+    from sa.match import Locals as _L
+
+    rc = repo.module("context.render_context").classes.get("RenderContext")
+    if rc is None:
+        raise AnalysisError("anchor vanished: RenderContext")
+    n = 0
+    for fn in rc.methods.values():
+        L = _L(fn.node)
+        cfg = None
+        for st in own_nodes(fn.node):
+            if not (isinstance(st, ast.Assign) and len(st.targets) == 1 and isinstance(st.targets[0], ast.Name) and isinstance(st.value, ast.JoinedStr)):
+                continue
+            fv = [v for v in st.value.values if isinstance(v, ast.FormattedValue)]
+            consts = [v.value for v in st.value.values if isinstance(v, ast.Constant)]
+            if not (len(fv) == 2 and consts == ["."] and isinstance(fv[1].value, ast.Name) and fv[1].value.id == st.targets[0].id):
+                continue  # not `m = f"{root}.{m}"`
+            n += 1
+            cfg = cfg or CFG(fn.node)
+            dom = cfg.dominators()
+            node = next((x for x in cfg.nodes if x.kind == "stmt" and x.ast is st and not x.copy), None)
+            if node is None:
+                raise AnalysisError(f"{rule}: the completion assignment of {fn.qualname} is not in its CFG")
+            spared = False
+            for g, pol in guards(cfg, node.id, dom):
+                if g.kind != "test" or pol is None:
+                    continue
+                conj = g.ast.values if pol and isinstance(g.ast, ast.BoolOp) and isinstance(g.ast.op, ast.And) else [g.ast]
+                for cj in conj:
+                    pj = pol
+                    while isinstance(cj, ast.UnaryOp) and isinstance(cj.op, ast.Not):
+                        cj, pj = cj.operand, not pj
+                    txt = norm(L.inline(cj, stop=tuple(L.params)))
+                    if pj is False and "core_package_name" in txt and (".startswith(" in txt or "==" in txt):
+                        spared = True
+            sub = f"{fn.module.relpath}:{fn.qualname} `{norm(st)[:60]}`"
+            if spared:
+                rep.ok(rule, sub, "the completion is skipped for modules in the core package namespace", fn.loc(st))
+            else:
+                rep.violation(rule, sub, f"{fn.fq}|completion-hits-core",
+                              "a module path that starts with the output package's non-root segments is prefixed with the root package even when it belongs to "
+                              "the core package: for output `acme.shared` with the top-level core `shared.core` the client imports `.core.…` "
+                              "(ModuleNotFoundError: No module named 'acme.shared.core')", fn.loc(st))
+    rep.count(f"{rule}:completion_sites", n)
+    rep.require(n >= 1, f"{rule}: no module-path completion (`m = f\"{{root}}.{{m}}\"`) found in RenderContext (anchor)")
